@@ -152,9 +152,20 @@ def targets():
         a, m, g, mr = _sym_meas(v, UP, _ned_neg)
         e = F(A).FLAE(magnetic_dip=60.0, weights=np.array([0.5, 0.5]))
         e.ref = np.vstack((np.array(g), np.array(mr)))
-        return _capture(A, ('inv',), lambda: e.estimate(a, m, method='newton'))[0]
+        from pysym.sym import Unsupported
+        try:
+            return _capture(A, ('inv',), lambda: e.estimate(a, m, method='newton'))[0]
+        except Unsupported as ex:
+            if 'was not reached' in str(ex) or 'np.linalg' in str(ex):
+                return []        # the singularity test is gone (repaired): the `_refuted` file then no longer compiles
+            raise
+
+    def triad_dip(A, v):
+        a, m, _, _ = _sym_meas(v, UP, lambda cd, sd: [0.5, 0, 0.8660254037844386])
+        return F(A).TRIAD(v2=60.0, frame='NED').estimate(a, m)
 
     return [
+        mk('triad_dip', triad_dip, "TRIAD(v2=60.0) (dip angle as a float, as _set_second_triad_reference documents)"),
         mk('triad_NED', triad(_ned, 'rotmat'), "TRIAD(v1=(0,0,1), v2=(cd,0,sd)).estimate(sa R^T v1, sm R^T v2)"),
         mk('triad_ENU', triad(_enu, 'rotmat'), "TRIAD(v1=(0,0,1), v2=(0,cd,-sd)).estimate(...)"),
         mk('triad_ctor', triad_ctor(_ned), "TRIAD(w1, w2, v1, v2).A"),
@@ -177,3 +188,470 @@ def targets():
 
 
 STAGES = []
+
+
+STAGES = [['C04_tac.v'],
+          ['C04_matrix.v', 'C04_eigen.v', 'C04_closed.v',
+           ('C04_refuted_triad_dip.v', {'finding': 'triad_dip_NED/raises-TypeError'}),
+           ('C04_refuted_flae.v', {'finding': 'flae_newton/identity-fallback'})],
+          ['C04.v']]
+COQ_TIMEOUT = 600
+
+LEVEL_TEXT = ("Coq theorems over the regenerated estimators run on symbolic consistent data: TRIAD (estimate, constructor, both "
+              "reference styles), ecompass and am2DCM (both frames) are exact for every unit quaternion, every dip in (-90,90) deg and "
+              "all positive scalings; Davenport's K and FLAE's W (captured at the LAPACK call) are symmetric with the true quaternion as "
+              "eigenvector for sa+sm resp. 1; SAAM is exact in general position. The remaining estimators and modes are covered by the "
+              "correspondence of their regenerated models and by the search oracle; FLAE symbolic/newton and OLEQ are recorded known findings")
+TECHNIQUE = "pysym regeneration of the public estimate() entry points on symbolic images of the references + Coq (ring/field modulo unit norms, sqrt lemmas) + numeric search oracle"
+RULE = ("attitudes: the named singular poses (level at 8 headings, inverted, each body axis vertical, half-turns about axis-aligned and "
+        "oblique axes, identity) for the singularity-free class, uniform draws on S^3 filtered by the property's general-position guard "
+        "for the closed-form class; dips -80..80 deg, NED and ENU reference styles, scalings 1e-2..1e2 log-uniform; every estimator and "
+        "mode; scalar estimate(), one-sample constructor and N-sample constructor with N in {2,3,4,5,7}; list / integer-valued inputs; "
+        "second call on the same object. Non-trivial = attitude differs from the identity; distinct = (estimator, call form, rounded input)")
+TRUSTED = ["Coq 8.16.1 kernel; vm_compute for the float copies",
+           "pysym tracing translator incl. the capture of the argument of np.linalg.eig/eigh/inv and the pruning of the not-converged side of QUEST/FLAE Newton loops",
+           "stdlib real-number axioms", "real arithmetic stands for binary64 (measured by correspondence and search)",
+           "LAPACK eigh and the selection of its top eigenvector: contract `eig_sym` (Section hypothesis)"]
+PARTIAL = ("proved: TRIAD/ecompass/am2DCM exact on all of SO(3); Davenport K and FLAE W eigen-equations; SAAM exact in general position. "
+           "Not proved (regenerated model + correspondence + search only): Tilt, AQUA, FAMC, FQA, QUEST, quaternion outputs through "
+           "chiaverini/dcm2quat, acc2q; maximality/simplicity of the Davenport/FLAE eigenvalue is a premise; FLAE symbolic/newton and OLEQ "
+           "are inexact in the pinned tree (known findings)")
+
+
+# ------------------------------------------------------------------------------------------
+# implementation side: every estimator / mode with its documented convention
+# ------------------------------------------------------------------------------------------
+def _f(x):
+    return np.asarray(x, dtype=float)
+
+
+def _impl():
+    """name -> dict(gref, mref, meas, ret, cls, one(a, m, dipdeg, g, mr) -> result, many(A, M, dipdeg, g, mr) -> results or None)"""
+    import ahrs
+    from ahrs.common import orientation as O
+    Fl = ahrs.filters
+    T = {}
+
+    def add(name, gref, mref, meas, ret, cls, one, many=None):
+        T[name] = dict(gref=gref, mref=mref, meas=meas, ret=ret, cls=cls, one=one, many=many)
+
+    for fr, mref in (('NED', _ned), ('ENU', _enu)):
+        add(f'triad_{fr}', UP, mref, 'T', 'RT', 'free',
+            lambda a, m, d, g, mr: Fl.TRIAD(v1=_f(g), v2=_f(mr)).estimate(a, m),
+            lambda A, M, d, g, mr: Fl.TRIAD(A, M, v1=_f(g), v2=_f(mr)).A)
+        add(f'triad_{fr}_q', UP, mref, 'T', 'q*', 'closed',
+            lambda a, m, d, g, mr: Fl.TRIAD(v1=_f(g), v2=_f(mr)).estimate(a, m, 'quaternion'),
+            lambda A, M, d, g, mr: Fl.TRIAD(A, M, v1=_f(g), v2=_f(mr), representation='quaternion').A)
+        add(f'ecompass_{fr}', UP, mref, 'T', 'R', 'free', lambda a, m, d, g, mr, fr=fr: O.ecompass(a, m, frame=fr))
+        add(f'ecompass_{fr}_q', UP, mref, 'T', 'q', 'closed',
+            lambda a, m, d, g, mr, fr=fr: O.ecompass(a, m, frame=fr, representation='quaternion'))
+    add('am2DCM_ENU', UP, _enu, 'T', 'RT', 'free', lambda a, m, d, g, mr: O.am2DCM(a, m, frame='ENU'))
+    add('am2DCM_NED', DOWN, _ned, 'T', 'RT', 'free', lambda a, m, d, g, mr: O.am2DCM(a, m, frame='NED'))
+    add('am2q_ENU', UP, _enu, 'T', 'q', 'closed', lambda a, m, d, g, mr: O.am2q(a, m, frame='ENU'))
+    add('am2q_NED', DOWN, _ned, 'T', 'q', 'closed', lambda a, m, d, g, mr: O.am2q(a, m, frame='NED'))
+    add('tilt', UP, _ned, 'T', 'q', 'free', lambda a, m, d, g, mr: Fl.Tilt().estimate(a, m),
+        lambda A, M, d, g, mr: Fl.Tilt(A, M).Q)
+    add('tilt_rotmat', UP, _ned, 'T', 'R', 'free', lambda a, m, d, g, mr: Fl.Tilt().estimate(a, m, 'rotmat'),
+        lambda A, M, d, g, mr: Fl.Tilt(A, M, representation='rotmat').Q)
+    add('aqua', UP, _ned, 'R', 'q', 'free', lambda a, m, d, g, mr: Fl.AQUA().estimate(a, m))
+    add('davenport', UP, _ned, 'T', 'q', 'free', lambda a, m, d, g, mr: Fl.Davenport(magnetic_dip=d).estimate(a, m),
+        lambda A, M, d, g, mr: Fl.Davenport(A, M, magnetic_dip=d).Q)
+    add('flae_eig', UP, _ned_neg, 'T', 'q', 'free', lambda a, m, d, g, mr: Fl.FLAE(magnetic_dip=d).estimate(a, m, method='eig'),
+        lambda A, M, d, g, mr: Fl.FLAE(A, M, method='eig', magnetic_dip=d).Q)
+    add('flae_symbolic', UP, _ned_neg, 'T', 'q', 'closed', lambda a, m, d, g, mr: Fl.FLAE(magnetic_dip=d).estimate(a, m, method='symbolic'),
+        lambda A, M, d, g, mr: Fl.FLAE(A, M, method='symbolic', magnetic_dip=d).Q)
+    add('flae_newton', UP, _ned_neg, 'T', 'q', 'closed', lambda a, m, d, g, mr: Fl.FLAE(magnetic_dip=d).estimate(a, m, method='newton'),
+        lambda A, M, d, g, mr: Fl.FLAE(A, M, method='newton', magnetic_dip=d).Q)
+    add('quest', UP, _ned, 'T', 'q', 'closed', lambda a, m, d, g, mr: Fl.QUEST(magnetic_dip=d).estimate(a, m),
+        lambda A, M, d, g, mr: Fl.QUEST(A, M, magnetic_dip=d).Q)
+    add('saam', UP, _ned, 'T', 'q*', 'closed', lambda a, m, d, g, mr: Fl.SAAM().estimate(a, m),
+        lambda A, M, d, g, mr: Fl.SAAM(A, M).Q)
+    add('famc', UP, _ned, 'T', 'q', 'closed', lambda a, m, d, g, mr: Fl.FAMC().estimate(a, m),
+        lambda A, M, d, g, mr: Fl.FAMC(A, M).Q)
+    add('fqa', DOWN, _ned, 'T', 'q', 'closed', lambda a, m, d, g, mr: Fl.FQA(mag_ref=_f(mr)).estimate(a, np.array(m, dtype=float)),
+        lambda A, M, d, g, mr: Fl.FQA(A, M, mag_ref=_f(mr)).Q)
+    add('oleq_NED', DOWN, _oleq_ned, 'T', 'q', 'closed', lambda a, m, d, g, mr: Fl.OLEQ(magnetic_ref=d, frame='NED').estimate(a, m),
+        lambda A, M, d, g, mr: Fl.OLEQ(A, M, magnetic_ref=d, frame='NED').Q)
+    add('oleq_ENU', UP, _enu, 'T', 'q', 'closed', lambda a, m, d, g, mr: Fl.OLEQ(magnetic_ref=d, frame='ENU').estimate(a, m),
+        lambda A, M, d, g, mr: Fl.OLEQ(A, M, magnetic_ref=d, frame='ENU').Q)
+    return T
+
+
+_IMPL = None
+
+
+def impl():
+    global _IMPL
+    if _IMPL is None:
+        _IMPL = _impl()
+    return _IMPL
+
+
+def _measure(q, dipdeg, sa, sm, e):
+    """consistent data for table entry e: (acc, mag, g, mref, expected rotation matrix of the returned attitude)"""
+    q = _f(q)
+    R = cm.Rspec(q)
+    cd, sd = math.cos(math.radians(dipdeg)), math.sin(math.radians(dipdeg))
+    g, mr = _f(e['gref']), _f(e['mref'](cd, sd))
+    M = R.T if e['meas'] == 'T' else R
+    exp = {'q': R, 'R': R, 'q*': R.T, 'RT': R.T}[e['ret']]
+    return sa * (M @ g), sm * (M @ mr), g, mr, exp
+
+
+def _as_rot(res, ret):
+    """returned value -> rotation matrix, or a string describing why it is not an attitude"""
+    a = np.asarray(res)
+    if np.iscomplexobj(a):
+        if np.max(np.abs(a.imag)) > 0:
+            return 'complex-valued'
+        a = a.real                           # dtype leak with zero imaginary part is C03's subject, not this property's
+    a = np.asarray(a, dtype=float)
+    if not np.all(np.isfinite(a)):
+        return 'non-finite'
+    if ret in ('q', 'q*'):
+        if a.shape != (4,):
+            return f'shape{a.shape}'
+        n = np.linalg.norm(a)
+        if abs(n - 1) > 1e-6:
+            return f'norm={n:.6g}'
+        return cm.Rspec(a / n)
+    if a.shape != (3, 3):
+        return f'shape{a.shape}'
+    return a
+
+
+def _angle(Ra, Rb):
+    """rotation angle between two rotation matrices, accurate for small angles"""
+    D = Ra @ Rb.T
+    s = np.linalg.norm(D - D.T) / (2 * math.sqrt(2))          # sin(theta)
+    c = (np.trace(D) - 1) / 2
+    return math.atan2(s, c)
+
+
+TOL = 1e-7
+
+
+def _bucket(err):
+    return 'error<=0.1rad' if err <= 0.1 else 'error>0.1rad'
+
+
+def in_general_position(q):
+    q = _f(q)
+    R = cm.Rspec(q)
+    c3 = math.cos(math.radians(3.0))
+    return (min(abs(q)) >= 0.05 and 2 * math.acos(min(1.0, abs(q[0]))) <= math.pi - 0.1
+            and abs(R[2, 2]) <= c3 and abs(R[2, 0]) <= c3 and abs(R[0, 2]) <= c3)
+
+
+def o_estimate(inp):
+    """one estimator/mode on consistent data: the returned attitude is the true one within 1e-7 rad.
+    inp: est, q, dip (deg), sa, sm, form ('estimate' | 'ctor1' | 'ctorN'), n, row, seed, as_list"""
+    T = impl()
+    est = inp['est']
+    e = T[est]
+    q = _f(inp['q'])
+    a, m, g, mr, exp = _measure(q, inp['dip'], inp['sa'], inp['sm'], e)
+    form = inp.get('form', 'estimate')
+    np.random.seed(int(inp.get('seed', 0)) % (2 ** 32))          # OLEQ draws its start from the global NumPy RNG
+    with warnings.catch_warnings():
+        warnings.simplefilter('ignore')
+        with np.errstate(all='ignore'):
+            if form == 'estimate':
+                aa, mm = (a.tolist(), m.tolist()) if inp.get('as_list') and est not in ('fqa',) else (a.copy(), m.copy())
+                res = e['one'](aa, mm, inp['dip'], g, mr)
+                if inp.get('twice'):
+                    res2 = e['one'](a.copy(), m.copy(), inp['dip'], g, mr)
+            else:
+                n = 1 if form == 'ctor1' else int(inp['n'])
+                row = int(inp.get('row', 0)) % n
+                # the other rows hold other consistent attitudes (deterministic in the input)
+                rng = np.random.default_rng(int(inp.get('seed', 0)))
+                A, Mg = np.zeros((n, 3)), np.zeros((n, 3))
+                for i in range(n):
+                    if i == row:
+                        A[i], Mg[i] = a, m
+                    else:
+                        qi = cm.rand_unit_quat(rng)
+                        while not in_general_position(qi):
+                            qi = cm.rand_unit_quat(rng)
+                        A[i], Mg[i] = _measure(qi, inp['dip'], inp['sa'], inp['sm'], e)[:2]
+                if form == 'ctor1':
+                    out = e['many'](A[0].copy(), Mg[0].copy(), inp['dip'], g, mr)
+                    res = np.asarray(out)
+                else:
+                    out = np.asarray(e['many'](A.copy(), Mg.copy(), inp['dip'], g, mr))
+                    if out.shape[0] != n:
+                        return {'tag': f'{est}/{form}-wrong-length', 'observed': list(out.shape), 'expected': n}
+                    res = out[row]
+    if res is None:
+        return {'tag': f'{est}/returns-None', 'observed': None}
+    Rr = _as_rot(res, e['ret'])
+    if isinstance(Rr, str):
+        return {'tag': f'{est}/not-an-attitude-{Rr.split("=")[0].split("(")[0]}', 'observed': np.asarray(res), 'note': Rr}
+    err = _angle(Rr, exp)
+    if not err <= TOL:
+        ret = np.asarray(res).real
+        kind = 'identity-fallback' if (ret.shape == (4,) and np.array_equal(ret, [1.0, 0.0, 0.0, 0.0])) else _bucket(err)
+        return {'tag': f'{est}/{kind}', 'observed': {'angle_error_rad': err, 'returned': ret},
+                'expected': {'rotation': exp, 'tolerance_rad': TOL}}
+    if form == 'estimate' and inp.get('twice'):
+        R2 = _as_rot(res2, e['ret'])
+        if isinstance(R2, str) or not _angle(R2, exp) <= TOL:
+            return {'tag': f'{est}/second-call-differs', 'observed': np.asarray(res2)}
+    return None
+
+
+def o_acc2q(inp):
+    """acc2q: the returned quaternion maps the vertical onto the measured gravity direction (inverse rotation), any magnitude"""
+    from ahrs.common import orientation as O
+    q = _f(inp['q'])
+    a = inp['sa'] * (cm.Rspec(q).T @ np.array([0.0, 0.0, 1.0]))
+    r = np.asarray(O.acc2q(a.copy()), dtype=float)
+    if r.shape != (4,) or not np.all(np.isfinite(r)) or abs(np.linalg.norm(r) - 1) > 1e-9:
+        return {'tag': 'acc2q/not-a-versor', 'observed': r}
+    d = cm.Rspec(r).T @ np.array([0.0, 0.0, 1.0]) - a / inp['sa']
+    if np.linalg.norm(d) > TOL:
+        return {'tag': 'acc2q/gravity-not-recovered', 'observed': cm.Rspec(r).T[:, 2], 'expected': a / inp['sa']}
+    return None
+
+
+def o_triad_dip(inp):
+    """TRIAD documents a float dip angle as second reference (`_set_second_triad_reference`)"""
+    import ahrs
+    fr = inp['frame']
+    T = impl()
+    e = dict(T[f'triad_{fr}'])
+    if fr == 'ENU':
+        e['gref'] = DOWN            # TRIAD's default first reference in ENU
+    a, m, g, mr, exp = _measure(inp['q'], inp['dip'], inp['sa'], inp['sm'], e)
+    try:
+        A = ahrs.filters.TRIAD(v2=float(inp['dip']), frame=fr).estimate(a, m)
+    except Exception as ex:            # noqa: the outcome is the observation
+        return {'tag': f'triad_dip_{fr}/raises-{type(ex).__name__}', 'observed': str(ex)[:200]}
+    Rr = _as_rot(A, 'RT')
+    if isinstance(Rr, str):
+        return {'tag': f'triad_dip_{fr}/not-an-attitude', 'observed': A}
+    err = _angle(Rr, exp)
+    if not err <= TOL:
+        return {'tag': f'triad_dip_{fr}/{_bucket(err)}', 'observed': err, 'expected': f'<= {TOL}'}
+    return None
+
+
+def o_oleq_fixed(inp):
+    """OLEQ's iteration matrix has the true attitude as a fixed point: started there (the draw of the global RNG is
+    replaced by the true quaternion for the duration of the call), estimate() returns it.  Independent of the iteration cap."""
+    import ahrs
+    fr = inp['frame']
+    e = impl()[f'oleq_{fr}']
+    q = _f(inp['q'])
+    a, m, g, mr, exp = _measure(q, inp['dip'], inp['sa'], inp['sm'], e)
+    rnd = np.random.random
+    np.random.random = lambda n=None: q + 0.5
+    try:
+        with warnings.catch_warnings():
+            warnings.simplefilter('ignore')
+            res = e['one'](a, m, inp['dip'], g, mr)
+    finally:
+        np.random.random = rnd
+    Rr = _as_rot(res, 'q') if res is not None else 'None'
+    if isinstance(Rr, str):
+        return {'tag': f'oleq_{fr}/fixed-point-not-an-attitude', 'observed': res}
+    err = _angle(Rr, exp)
+    if not err <= TOL:
+        return {'tag': f'oleq_{fr}/fixed-point-moves', 'observed': {'angle_error_rad': err, 'returned': np.asarray(res)},
+                'expected': {'rotation': exp, 'tolerance_rad': TOL}}
+    return None
+
+
+ORACLES = {'estimate': o_estimate, 'acc2q': o_acc2q, 'triad_dip': o_triad_dip, 'oleq_fixed': o_oleq_fixed}
+
+
+def _call(f, inp, name):
+    from vlib.core import call_outcome
+    r = call_outcome(f, inp)
+    if r[0] == 'raise':
+        return {'tag': f"{name}/raises-{r[1]}", 'observed': list(r[1:])}
+    return r[1]
+
+
+def singular_poses():
+    s = math.sqrt(0.5)
+    out = [('identity', [1.0, 0, 0, 0])]
+    for k in range(8):
+        out.append((f'level-heading-{45 * k}', cm.axang_q([0, 0, 1], k * math.pi / 4).tolist()))
+    out.append(('inverted-x', [0.0, 1, 0, 0]))
+    out.append(('inverted-y', [0.0, 0, 1, 0]))
+    out.append(('half-turn-z', [0.0, 0, 0, 1]))
+    out.append(('x-axis-up', [s, 0, s, 0]))
+    out.append(('x-axis-down', [s, 0, -s, 0]))
+    out.append(('y-axis-up', [s, -s, 0, 0]))
+    out.append(('y-axis-down', [s, s, 0, 0]))
+    for ax in ([1, 1, 0], [1, 2, 3], [0, 1, -1], [-1, 1, 1]):
+        out.append(('half-turn-oblique', cm.axang_q(ax, math.pi).tolist()))
+        out.append(('inverted-heading', cm.qmul(cm.axang_q([0, 0, 1], 0.7), [0.0, 1, 0, 0]).tolist()))
+    out.append(('x-up-heading', cm.qmul(cm.axang_q([0, 0, 1], 1.1), [s, 0, s, 0]).tolist()))
+    out.append(('half-turn-z-tilted', cm.qmul([s, s, 0, 0], [0.0, 0, 0, 1]).tolist()))
+    return out
+
+
+def _gp_quat(rng):
+    while True:
+        q = cm.rand_unit_quat(rng)
+        if in_general_position(q):
+            return q
+
+
+def search(ctx, scale):
+    T = impl()
+    rng = ctx.rng
+    names = list(T)
+    free = [n for n in names if T[n]['cls'] == 'free']
+    draw = lambda: dict(dip=float(rng.uniform(-80, 80)), sa=float(10 ** rng.uniform(-2, 2)), sm=float(10 ** rng.uniform(-2, 2)),
+                        seed=int(rng.integers(0, 2 ** 31)))
+    k = lambda est, form, q: (est, form, tuple(np.round(q, 5)))
+    # 1. singular poses for the singularity-free class (exactly representable inputs, also as Python lists)
+    for j, (region, q) in enumerate(singular_poses()):
+        for est in free:
+            for dip in ((60.0, -80.0, 0.0, 80.0) if scale > 1 else (60.0, -35.0)):
+                inp = dict(est=est, q=q, region=region, form='estimate', as_list=bool(j % 2), **draw())
+                inp.update(dip=dip, sa=1.0 if j % 3 else 9.81, sm=1.0 if j % 2 else 48.0)
+                ctx.check('estimate', inp, _call(o_estimate, inp, est), nontrivial_key=k(est, region, q) if region != 'identity' else None)
+    # 2. general position: every estimator and mode, scalar estimate(), second call
+    for i in range(12 * scale):
+        q = _gp_quat(rng)
+        for est in names:
+            inp = dict(est=est, q=q.tolist(), form='estimate', twice=(i % 4 == 0 and not est.startswith('oleq')), **draw())
+            ctx.check('estimate', inp, _call(o_estimate, inp, est), nontrivial_key=k(est, 'estimate', q))
+    # 3. whole SO(3) for the singularity-free class
+    for i in range(15 * scale):
+        q = cm.rand_unit_quat(rng)
+        for est in free:
+            inp = dict(est=est, q=q.tolist(), form='estimate', **draw())
+            ctx.check('estimate', inp, _call(o_estimate, inp, est), nontrivial_key=k(est, 'estimate', q))
+    # 4. constructor paths: one sample and N samples, N in {2,3,4,5,7}
+    for i, n in enumerate((1, 2, 3, 4, 5, 7) * (1 if scale == 1 else 3)):
+        q = _gp_quat(rng)
+        for est in names:
+            if T[est]['many'] is None:
+                continue
+            if n == 1 and est in ('flae_eig', 'flae_newton'):
+                continue            # one-sample FLAE(acc, mag, method=...) ignores `method`: owned by property C07
+            inp = dict(est=est, q=q.tolist(), form='ctor1' if n == 1 else 'ctorN', n=n, row=int(rng.integers(0, n)), **draw())
+            ctx.check('estimate', inp, _call(o_estimate, inp, est), nontrivial_key=k(est, inp['form'] + str(n), q))
+    # 5. acc2q and TRIAD with a float dip
+    for i in range(10 * scale):
+        q = cm.rand_unit_quat(rng) if i % 2 else _f(singular_poses()[i % len(singular_poses())][1])
+        inp = dict(q=_f(q).tolist(), sa=float(10 ** rng.uniform(-2, 2)))
+        ctx.check('acc2q', inp, _call(o_acc2q, inp, 'acc2q'), nontrivial_key=('acc2q', tuple(np.round(q, 5))))
+        for fr in ('NED', 'ENU'):
+            inp = dict(q=_f(q).tolist(), frame=fr, **draw())
+            ctx.check('triad_dip', inp, _call(o_triad_dip, inp, f'triad_dip_{fr}'), nontrivial_key=('triad_dip', fr, tuple(np.round(q, 5))))
+    # 6. OLEQ started at the true attitude (fixed point of its iteration; not affected by the recorded iteration-cap findings)
+    for i in range(20 * scale):
+        q = _gp_quat(rng)
+        for fr in ('NED', 'ENU'):
+            inp = dict(q=q.tolist(), frame=fr, **draw())
+            ctx.check('oleq_fixed', inp, _call(o_oleq_fixed, inp, f'oleq_{fr}'), nontrivial_key=('oleq_fixed', fr, tuple(np.round(q, 5))))
+    ctx.samples.append({'kind': 'search', 'oracle': 'estimate', 'input': dict(est='quest', q=[0.5, 0.5, 0.5, 0.5], dip=60.0, sa=9.81, sm=48.0)})
+
+
+# ------------------------------------------------------------------------------------------
+# correspondence: regenerated float models (run inside Coq) against the public entry points
+# ------------------------------------------------------------------------------------------
+_CORR = {   # target -> table entry whose scalar call returns the same thing
+    'triad_NED': 'triad_NED', 'triad_ENU': 'triad_ENU', 'ecompass_NED': 'ecompass_NED', 'ecompass_ENU': 'ecompass_ENU',
+    'am2DCM_ENU': 'am2DCM_ENU', 'am2DCM_NED': 'am2DCM_NED', 'tilt_q': 'tilt', 'tilt_R': 'tilt_rotmat', 'aqua': 'aqua',
+    'saam': 'saam', 'famc': 'famc', 'fqa': 'fqa', 'quest': 'quest',
+}
+
+
+def _cases(ctx, n, cls):
+    out = []
+    poses = [q for _, q in singular_poses()] if cls == 'free' else []
+    for i in range(n):
+        if i < len(poses) and i % 2 == 0:
+            q = _f(poses[i])
+        else:
+            q = _gp_quat(ctx.rng) if cls == 'closed' else cm.rand_unit_quat(ctx.rng)
+        dip = float(ctx.rng.uniform(-80, 80))
+        out.append(dict(zip(IN, [*q, float(10 ** ctx.rng.uniform(-2, 2)), float(10 ** ctx.rng.uniform(-2, 2)),
+                                 math.cos(math.radians(dip)), math.sin(math.radians(dip))])))
+    return out
+
+
+def _run_impl(name, c):
+    import ahrs
+    e = impl()[name]
+    q = _f([c[k] for k in Q])
+    R = cm.Rspec(q)
+    g, mr = _f(e['gref']), _f(e['mref'](c['cd'], c['sd']))
+    M = R.T if e['meas'] == 'T' else R
+    a, m = c['sa'] * (M @ g), c['sm'] * (M @ mr)
+    Fl = ahrs.filters
+    with warnings.catch_warnings():
+        warnings.simplefilter('ignore')
+        # the dip enters the models as (cd, sd): hand the reference vector itself to the estimators that accept one
+        if name == 'quest':
+            est = Fl.QUEST(magnetic_dip=60.0); est.m_q = mr
+            return est.estimate(a, m)
+        if name == 'tilt':
+            return Fl.Tilt().estimate(a, m)
+        return e['one'](a, m, None, g, mr)
+
+
+def correspondence(ctx):
+    n = ctx.n(24, 200)
+    T = impl()
+    for tname, name in _CORR.items():
+        cases = _cases(ctx, n, T[name]['cls'])
+        quat = T[name]['ret'] in ('q', 'q*')
+        ctx.correspond(f'C04_{tname}', cases, (lambda c, name=name: _run_impl(name, c)), tol_ulp=64, abs_tol=2e-9, up_to_sign=quat)
+    # TRIAD through the constructor
+    import ahrs
+    ctx.correspond('C04_triad_ctor', _cases(ctx, n, 'free'),
+                   lambda c: (lambda a, m, g, mr: ahrs.filters.TRIAD(a, m, v1=g, v2=mr).A)(*_meas_c(c, 'triad_NED')), tol_ulp=64, abs_tol=2e-9)
+    # captured LAPACK inputs: the top eigenvector of the model's matrix (evaluated inside Coq) is what the public call returns
+    from vlib import core
+    for tname, name in (('davenport_K', 'davenport'), ('flae_W', 'flae_eig')):
+        t = ctx.targets.get(f'C04_{tname}')
+        if t is None or t.error:
+            continue
+        cases = _cases(ctx, ctx.n(12, 100), 'free')
+        from pysym import emit
+        pre = ['From Coq Require Import List. From Coq Require Import Uint63. From Coq Require Import PrimFloat.',
+               'From AhrsLib Require Import FBase.', 'From AhrsGen Require Import C04gen_F.', 'Import ListNotations.', 'Open Scope float_scope.']
+        exprs = [f"C04_{tname}_F " + ' '.join(emit._hexf(float(c[v])) for v in IN) for c in cases]
+        outs = ctx.coq_eval(f'C04_{tname}', pre, exprs)
+        if outs is None:
+            continue
+        for c, o in zip(cases, outs):
+            r = core.parse_evals('= ' + o + '\n     : x')
+            if not r or r[0][0] != 'val' or len(r[0][1]) != 16:
+                ctx.disagree(f'C04_{tname}', c, o, None, 'model did not return a 4x4 matrix')
+                continue
+            K = np.array(r[0][1]).reshape(4, 4)
+            wv, V = np.linalg.eigh((K + K.T) / 2)
+            top = V[:, int(np.argmax(wv))]
+            a, m, g, mr = _meas_c(c, name)
+            if name == 'davenport':
+                est = ahrs.filters.Davenport(magnetic_dip=60.0, gravity=1.0); est.m_q = mr
+                got = np.real(est.estimate(a, m))
+            else:
+                est = ahrs.filters.FLAE(magnetic_dip=60.0, weights=np.array([0.5, 0.5])); est.ref = np.vstack((g, mr))
+                got = np.real(est.estimate(a, m, method='eig'))
+            got = got / np.linalg.norm(got)
+            d = min(np.max(np.abs(got - top)), np.max(np.abs(got + top)))
+            gap = np.sort(wv)[-1] - np.sort(wv)[-2]
+            if d > 1e-9 / max(gap, 1e-6) or np.max(np.abs(K - K.T)) > 1e-12 * max(1.0, np.max(np.abs(K))):
+                ctx.disagree(f'C04_{tname}', c, top, got, f'top eigenvector of the model matrix differs from the public output by {d:.3g}')
+            else:
+                ctx.agree(f'C04_{tname}')
+        ctx.say(f"[corr] C04_{tname}: {len(cases)} cases, top eigenvector of the regenerated matrix vs public estimate()")
+
+
+def _meas_c(c, name):
+    e = impl()[name]
+    R = cm.Rspec(_f([c[k] for k in Q]))
+    g, mr = _f(e['gref']), _f(e['mref'](c['cd'], c['sd']))
+    M = R.T if e['meas'] == 'T' else R
+    return c['sa'] * (M @ g), c['sm'] * (M @ mr), g, mr
